@@ -473,7 +473,8 @@ pub fn main(args: &Args) {
         patterns.extend(rgs(n));
     }
     // structured long lists
-    for n in 9..=12usize {
+    // (also around the sizes at which buffers, small counters and hash tables change regime)
+    for n in (9..=12usize).chain([15, 16, 17, 31, 32, 33, 63, 64, 65, 100]) {
         patterns.push(vec![0; n]);
         patterns.push((0..n).collect());
         patterns.push((0..n).map(|i| i / 2).collect());
@@ -486,7 +487,7 @@ pub fn main(args: &Args) {
             let mut t = Tally::default();
             let twin = twin_of(inst).map(|i| &insts[i]);
             let n = pat.len();
-            let masks: Vec<u32> = if n <= 8 { (0..(1u32 << n)).collect() } else { (0..n as u32).map(|i| 1 << i).chain([0]).collect() };
+            let masks: Vec<u128> = if n <= 8 { (0..(1u128 << n)).collect() } else { (0..n as u32).map(|i| 1u128 << i).chain([0]).collect() };
             for mask in masks {
                 let text: Vec<String> = pat
                     .iter()
@@ -506,7 +507,7 @@ pub fn main(args: &Args) {
     rep.set("max_list_len", json!(maxlen));
     rep.set("repetition_patterns", json!(n_patterns));
     rep.rule = format!(
-        "25 map instantiations (Hash/BTree x String/Ident/Path keys x bool,u8,String,Expr,nested map values). (1) every item list of length 0..{maxlen} over 9 symbols (four key slots - a / r#a, b / r#type, a::b / crate::b / a::r#b, ::a / self / super::a, spellings rotating with position - each with a good or bad value, and a literal item rotating through \"lit\", -1, true, 5, -1.5; value spellings rotate with position); (2) every key-repetition pattern (restricted-growth strings) up to length {rgs_len} x every good/bad mask, plus structured lists of length 9..12. Reference model: literal -> 1 leaf; unconvertible key -> 1 leaf (+ the value's own leaves); repeated key -> 1 duplicate leaf (+ value leaves); value leaves = V::from_meta(item) located under the key; Ok iff no leaf, then entries equal; HashMap and BTreeMap twins compared on every input. states = lists explored; non-trivial = lists the model rejects."
+        "25 map instantiations (Hash/BTree x String/Ident/Path keys x bool,u8,String,Expr,nested map values). (1) every item list of length 0..{maxlen} over 9 symbols (four key slots - a / r#a, b / r#type, a::b / crate::b / a::r#b, ::a / self / super::a, spellings rotating with position - each with a good or bad value, and a literal item rotating through \"lit\", -1, true, 5, -1.5; value spellings rotate with position); (2) every key-repetition pattern (restricted-growth strings) up to length {rgs_len} x every good/bad mask, plus structured lists of length 9..12, 15..17, 31..33, 63..65 and 100 (all keys equal / all distinct / pairs; one bad value at each position). Reference model: literal -> 1 leaf; unconvertible key -> 1 leaf (+ the value's own leaves); repeated key -> 1 duplicate leaf (+ value leaves); value leaves = V::from_meta(item) located under the key; Ok iff no leaf, then entries equal; HashMap and BTreeMap twins compared on every input. states = lists explored; non-trivial = lists the model rejects."
     );
     rep.assumptions = vec!["the element type's own conversion (V::from_meta) defines the per-item value outcome".into(), "String key conversion = path segments joined by `::`".into()];
     rep.tally.samples.push(json!({"inst": "HashMap<String,u8>", "list": "a = 300, b = 11, a = 12, \"lit\"", "expect_leaves": ["value error at a", "Duplicate field `a`", "Unexpected meta-item format `expression`"]}));
